@@ -149,3 +149,26 @@ func valStr(v gt.Val) string {
 	}
 	return s
 }
+
+// evalObj evaluates one expression and returns the raw object (nil on parse error/panic/error).
+func (ss *session) evalObj(src string) (res object.Object) {
+	defer func() {
+		if r := recover(); r != nil {
+			res = nil
+			ss.s.Reset()
+		}
+	}()
+	l := lexer.New(src)
+	p := parser.New(l)
+	prog := p.ParseProgram()
+	if len(p.Errors()) > 0 {
+		return nil
+	}
+	cancel := ss.s.SetContext(context.Background(), 5*time.Second)
+	defer cancel()
+	obj := ss.s.EvalToplevel(prog)
+	if obj.Type() == object.ERROR {
+		return nil
+	}
+	return obj
+}
